@@ -2963,7 +2963,7 @@ class Generator:
                             {'op': 'master_cycle', 'focus': True}])
         return {'op': 'allocations', 'allocations': allocs}
 
-    def g_lease_squeeze_failover(self, world):
+    def g_lease_squeeze_failover(self, world, staged=False):
         """Time passes until a server is too close to its reboot for a NEW
         lease of the length a running instance has - the running lease still
         fits - and the master fails over (C11 probes after the cycle)."""
@@ -2981,7 +2981,20 @@ class Generator:
                 if 0 < dt + 60 < app.placement_expiry - now - 60:
                     cands.append(dt + 60)
         if not cands:
-            return None
+            if staged:
+                return None
+            # no leased instance in that position yet: submit some first
+            proid = self.rng.choice(self.config['proids'])
+            manifest = {'memory': '256M', 'cpu': '10%', 'disk': '256M',
+                        'affinity': '%s.job' % proid,
+                        'lease': self.rng.choice(['12h', '1d', '3d'])}
+            limits = self.config['aff_limits'].get(manifest['affinity'])
+            if limits:
+                manifest['affinity_limits'] = limits
+            self.follow.extend([{'op': 'drain'}, {'op': 'master_cycle'},
+                                {'gen': 'lease_squeeze_failover'}])
+            return {'op': 'app_create', 'app_id': '%s.job' % proid,
+                    'manifest': manifest, 'count': self.rng.randint(1, 3)}
         self.follow.extend([{'op': 'drain'}, {'op': 'master_cycle'},
                             {'op': 'c11_probe'}])
         return {'op': 'advance', 'dt': round(self.rng.choice(cands), 3)}
